@@ -245,3 +245,64 @@ def replay_backtracking(viol):
     # t3 prints an unbound variable name: normalise by checking only that it is unbound
     cases[2] = ("q3(R), ( R = V-2, var(V) -> show(ok) ; show(R) )", "ok")
     return run_cases(BT_PROGRAM, cases, {"model": viol}, "C11", "backtracking")
+
+
+# ---------------------------------------------------------------- C06
+IDX_PROGRAM = """
+p(2). p(foo). p(7).
+big(36028797018963968). big(bar).
+:- dynamic(q/1).
+show(X) :- write(X), nl.
+"""
+
+
+def replay_index_keys(which, model):
+    """fit: small integers that reach the call as bignum cells must still select their clause;
+    big: integers outside the fixnum range built at run time must select the clause holding the
+    same value as a literal"""
+    if which == "fit":
+        cases = [("Y is 2^60-2^60+2, ( p(Y) -> show(yes) ; show(no) )", "yes"),
+                 ("Y is 2^70-2^70+7, findall(Y, p(Y), L), length(L, N), show(N)", "1"),
+                 ("X is 2^60-2^60+2, assertz(q(X)), assertz(q(2)), findall(A, q(2), L1), "
+                  "findall(A, q(X), L2), length(L1, N1), length(L2, N2), show(N1-N2)", "2-2"),
+                 ("Y is 1 ^ (-1), retractall(q(_)), assertz(q(1)), ( q(Y) -> show(yes) ; show(no) )",
+                  "yes")]
+    else:
+        cases = [("Z is 2^55, ( big(Z) -> show(yes) ; show(no) )", "yes")]
+    return run_cases(IDX_PROGRAM, cases, {"model": model, "class": which}, "C06",
+                     "index_keys_" + which)
+
+
+# ---------------------------------------------------------------- C05
+EQI_PROGRAM = """
+:- use_module(library(lists)).
+show(X) :- write(X), nl.
+lit2(2). lit7(7). litb(36028797018963968). litr(R) :- R is 1 rdiv 3.
+yn(G) :- ( catch(G, _, fail) -> show(yes) ; show(no) ).
+"""
+
+
+def replay_equal_integers(viol):
+    cases = [
+        # small value held in a bignum cell vs literal fixnum, both directions of head unification
+        ("Y is 2^60-2^60+2, yn(lit2(Y))", "yes"),
+        ("Y is 2^60-2^60+2, yn(Y = 2)", "yes"),
+        ("Y is 2^60-2^60+2, yn(2 = Y)", "yes"),
+        ("Y is 2^60-2^60+3, yn(lit2(Y))", "no"),
+        ("Y is 2^60-2^60+2, yn(Y == 2)", "yes"),
+        ("Y is 2^60-2^60+2, compare(O, Y, 2), show(O)", "="),
+        ("Y is 2^60-2^60+2, msort([3,Y,1,2], L), show(L)", "[1,2,2,3]"),
+        ("Y is 2^60-2^60+2, sort([3,Y,1,2], L), show(L)", "[1,2,3]"),
+        # bignum vs bignum built separately
+        ("Z is 2^55, yn(litb(Z))", "yes"),
+        ("Z is 2^55, yn(Z = 36028797018963968)", "yes"),
+        ("Z is 2^55 + 1, yn(litb(Z))", "no"),
+        # integral rational vs integer, rational vs rational
+        ("R is 4 rdiv 2, yn(R = 2)", "yes"),
+        ("R is 2 rdiv 6, yn(litr(R))", "yes"),
+        # an integer never unifies with a float
+        ("yn(2 = 2.0)", "no"), ("Y is 2^60-2^60+2, yn(Y = 2.0)", "no"),
+        ("Y is 2^60-2^60+2, length(L, Y), show(L)", "[_A,_B]"),
+    ]
+    cases[-1] = ("Y is 2^60-2^60+2, length(L, Y), length(L, N), show(N)", "2")
+    return run_cases(EQI_PROGRAM, cases, {"model": viol}, "C05", "equal_integers")
